@@ -68,10 +68,10 @@ Rq(a, d) == [at |-> a, d |-> d]
 PolA      == {[b0 |-> 100, mult |-> 3, max |-> 500]}
 PolT      == {[b0 |-> 10, mult |-> 2, max |-> 15]}
 ScriptsA  == ScriptsOf({OwnEarly, OwnLate, ForLate}, {<<0, 0>>}, 0, {0}, 3, 2, 2)
-ReqsA     == {<<>>, <<Rq(0, -1)>>}
+ReqsA     == {<<Rq(0, -1)>>}
 \* ---- exhaustive model, quick: latencies, silences, slack, two requests; short scripts
 ScriptsT  == ScriptsOf({OwnEarly, OwnLate3, ForLate3}, {<<7, 0>>, <<0, 7>>}, 7, {3}, 2, 1, 1)
-ReqsT     == {<<>>, <<Rq(0, 4)>>, <<Rq(0, 4), Rq(8, 4)>>, <<Rq(0, -1), Rq(0, 4)>>}
+ReqsT     == {<<Rq(0, 4)>>, <<Rq(0, 4), Rq(8, 4)>>, <<Rq(0, -1), Rq(0, 4)>>}
 TabsBoth  == {TabB, TabK}
 TabsK     == {TabK}
 \* the client's constant ExchangeId: mock goes with every map, any other must be the map's own
